@@ -22,6 +22,8 @@ for mid in args:
         meta = json.load(open(mp)); patch = os.path.join(outd, "patch%d.diff" % n)
         cmd = re.split(r"\s{2,}\(|\s+#", meta["demo_cmd"])[0].strip()
         cmd = re.sub(r"\(cd \$REPO && git apply [^)]*\) && ", "", cmd)   # the script applies / removes the patch itself
+        cmd = re.sub(r"cd \S+ && git apply \S+ \(omit for the clean run\); ", "", cmd)
+        if re.search(r"cp -r \S+ %s/demo/demo\d" % re.escape(wt), cmd): cmd = "mkdir -p %s/demo; " % wt + cmd
         res = {"at": time.strftime("%Y-%m-%d %H:%M:%S")}
         sh("git checkout -- . && git clean -fdq -e target", cwd=wt)
         rc0, out0 = sh(cmd, cwd=wt, timeout=3000)
